@@ -130,6 +130,16 @@ class GenerateWasmVisitor(Visitor.DefaultVisitor):
         self, vai: LinearIR.VariableAccessInstruction, ctx: Context
     ):
         assert ctx.Code
+        if (
+            vai.Scope != LinearIR.VariableAccessScope.FUNCTION_ARGUMENT
+            or vai.Store is not None
+        ):
+            # Only loads of function arguments can be translated so far; the
+            # rest has to be reported instead of being left out of the code
+            raise RuntimeError(
+                f"Unsupported variable access for WebAssembly: {vai.OpCode.name} {vai.Variable}"
+            )
+
         if vai.Scope == LinearIR.VariableAccessScope.FUNCTION_ARGUMENT:
             index = vai.Variable
             ctx.Code.AddInstruction(
@@ -204,6 +214,13 @@ class GenerateWasmVisitor(Visitor.DefaultVisitor):
                 WebAssembly.opcodes["local.set"],
                 (ctx.GetLocalForReference(bi.Reference),),
             )
+        )
+
+    def v_Instruction(self, instruction: LinearIR.Instruction, ctx: Context):
+        # Reached for every instruction kind without a translation above
+        # (branches, casts, calls, declarations, element accesses, ...)
+        raise RuntimeError(
+            f"Unsupported instruction for WebAssembly: {instruction.OpCode.name}"
         )
 
     def v_ReturnInstruction(self, ri: LinearIR.ReturnInstruction, ctx: Context):
